@@ -21,7 +21,8 @@
 (* they are enabled (URGENT): Wake+Final of a notified caller, Final after a   *)
 (* check that found nothing pending, the whole of cached_path, the first load  *)
 (* of a kept handle, StopExit of a cancelled/orphaned sleeping worker,         *)
-(* ExitRemove after ExitUpgrade, ExitClear after ExitNotify.                   *)
+(* BeginFetch after the upgrade, ExitRemove after ExitUpgrade, ExitClear after *)
+(* ExitNotify.                                                                 *)
 (*                                                                             *)
 (* `parked[c]`: the caller registered and sits at await.registered; it polls   *)
 (* its Notified future only after `unpark` (no step of the I-spec: the         *)
@@ -45,7 +46,7 @@ UrgentC(c) == \/ ~parked[c] /\ Wake(c)
               \/ Contains(c)
               \/ Kind[c] = "cached" /\ Ensure(c)
               \/ Kind[c] = "handle" /\ ActiveLoad(c)
-UrgentW(w) == StopExit(w) \/ ExitRemove(w) \/ ExitClear(w)
+UrgentW(w) == BeginFetch(w) \/ StopExit(w) \/ ExitRemove(w) \/ ExitClear(w)
 Urgent == (\E c \in Callers : UrgentC(c)) \/ (\E w \in Workers : UrgentW(w))
 AtRest == ~ENABLED Urgent
 
@@ -60,7 +61,7 @@ FObsW(w) == CASE wpc[w] = "spawned" -> "g:worker.start"
               [] wpc[w] = "finishing" -> "g:fetch.before_finish"
               [] wpc[w] = "exiting" -> "g:exit.before_remove"
               [] wpc[w] = "exitnotify" -> "g:exit.before_notify"
-              [] wpc[w] \in {"removing", "clearing"} -> "running"
+              [] wpc[w] \in {"starting", "removing", "clearing"} -> "running"
               [] OTHER -> wpc[w]
 FObs == [c |-> [c \in Callers |-> FObsC(c)], w |-> [w \in Workers |-> FObsW(w)], m |-> managed]
 
